@@ -144,16 +144,15 @@ contract(DEV + "._send_command",
          assumed="device-layer view of Device._send_command (the LAN object is abstracted away); the body is verified against the contract Device._send_command#transport, whose clauses imply this one except for cancellation and the frame of self._lan",
          params={"self": "obj:" + AC, "command": "obj:" + CMD + "Command"}, globals=G,
          rtype="list:bytes",
-         modifies=["Command._message_id"],
+         assigns={"Command._message_id": "old(Command._message_id) + 1"},
          emits={"sent": "command"},
          raises={},
-         notes="used at call sites only here; its body is verified against this contract in contracts/lan.py (C08/C09)")
+         notes="the command is serialised exactly once per exchange (#transport.serialised_exactly_once), and every tobytes contract advances the message id by one; used at call sites only here; its body is verified against this contract in contracts/lan.py (C08/C09)")
 
 contract(AC + "._send_command_get_responses",
          params={"self": "obj:" + AC, "command": "obj:" + CMD + "Command"}, globals=G,
          rtype="list:" + ANY_RESPONSE,
-         modifies=["Command._message_id"],
-         assigns={"self._supported": "len(result) > 0"},
+         assigns={"self._supported": "len(result) > 0", "Command._message_id": "old(Command._message_id) + 1"},
          emits={"sent": "command", "got_list": "result"},
          raises={},
          ensures={"one_exchange": "len(events('sent')) == 1 and same_object(events('sent')[0], command)",
